@@ -136,7 +136,7 @@ PROPS["C03"] = {
 }
 PROPS["C11"] = {
     "level": "proof", "title": "Exactly the needed files are on disk: nothing live deleted, nothing dead kept",
-    "lean_modules": ["Rain.Props.C11"], "components": ["lsm"], "sig_prefixes": ["c11:", "c09:"],
+    "lean_modules": ["Rain.Props.C11", "Rain.Props.Durable"], "components": ["lsm"], "sig_prefixes": ["c11:", "c09:"],
     "technique": "Lean 4 proofs over the retention model (a deletion pass keeps every file of every linked version, of running outputs and every WAL/manifest recovery needs; every released reference unlinks its version; in a quiescent reader-free state a pass leaves exactly the current version's tables; kernel-checked witness of the repaired leak) + directory listing vs state dump and vs the model's deletion pass after every quiescence/reopen, with readers and iterators held across compactions",
     "level_text": "Machine-checked proofs over the model of the version list with reference counts, tables_in_use and remove_obsolete_files for every sequence of acquisitions, releases, installations, outputs and deletion passes. Tied to the code on every run: after every quiescent point and reopen of generated histories (snapshots and iterators held across flushes, compactions and deletion passes) the directory is compared with the dumped state (versions, reference counts, tables in use, WAL / manifest numbers); with no reader alive a deletion pass is forced and the directory must equal the model's clean() of the dumped state; live tables must never be missing. Crash leftovers (orphan tables, stale manifests, temp files) are covered by the C02 crash enumerator's post-recovery checks.",
     "design_ref": "5 (C11)", "trusted_base": LSM_TB,
@@ -144,13 +144,35 @@ PROPS["C11"] = {
                     "deletion passes run only at the end of a flush/compaction (known finding: files whose last reference was a reader's linger until the next pass)"],
 }
 
-_db("C02", "Acknowledged writes survive a crash at any point; batches are all-or-nothing", ["c02:", "c09:"],
-    "Lean 4 proof over the durability model + exhaustive crash-prefix enumeration on SimFs", "under construction", [], [], comps=("c02",))
-_db("C16", "A torn final write costs at most the unacknowledged tail", ["c16:", "c09:"],
-    "Lean 4 proof (clean-append / torn-not-reused) + torn-write enumeration on SimFs", "under construction", [], [], comps=("c16",))
-_db("C08", "I/O failures are reported, never swallowed; nothing acknowledged is lost", ["c08:", "c09:"],
-    "Lean 4 proof over the fault model + single-fault enumeration on SimFs", "under construction", [], [], comps=("c08",))
-
+DUR_TB = DB_TB + [
+    "granularity of the durability model: completed filesystem operations as recorded by SimFs, abstracted to complete log records / complete tables / CURRENT; the translation of the recorded stream into model operations (harness/src/crash.rs model_stream) is part of the tie",
+    "no fsync / write-back reordering below the FileSystem trait (the code never calls fsync; the property speaks of crashes between filesystem operations)",
+    "the monitor's conditions on manifest appends and CURRENT switches are semantic (recovered contents unchanged); that the database's edits satisfy them follows from the LSM theorems and is evaluated on every recorded edit",
+]
+PROPS["C02"] = {
+    "level": "proof", "title": "Acknowledged writes survive a crash at any point; batches are all-or-nothing",
+    "lean_modules": ["Rain.Props.Durable", "Rain.Props.C12"], "components": ["c02"], "sig_prefixes": ["c02:", "c09:"],
+    "technique": "Lean 4 proof that every prefix of an operation stream accepted by the durability monitor recovers to exactly the batches whose WAL append is in the prefix (C02_every_prefix_recovers) + the monitor evaluated on every recorded real stream + crash enumeration of EVERY prefix (and of prefixes of the recovery of crash images) on the real code with an acknowledged/in-flight oracle",
+    "level_text": "Machine-checked proof over the durability model (persistent image as complete records, recovery function, ordering monitor) for every monitored stream and every prefix, i.e. every crash point, including crashes during recovery and repeated crash-recover rounds (recovery's operations are part of the stream). Tied to the code on every run: the stream of mutating filesystem operations recorded by SimFs for generated histories (writes, multi-key batches, values spanning several 32 KiB log blocks, flushes, compactions, manifest switches, reopens with both log-reuse settings) is translated to model operations and must be accepted by the monitor; independently every prefix of the stream (an even sample for long streams, always around renames/removals/creations) becomes a crash image that is reopened on the real code, compared with acknowledged +/- in-flight contents, written to, closed, reopened; crashes inside the recovery of crash images are enumerated one level deep.",
+    "design_ref": "5 (C02)", "trusted_base": DUR_TB,
+    "assumptions": ["a write is acknowledged only after its WAL append completed (apply_changes, proved at protocol level: C05_wal_before_memtable)", "crash = prefix of the operation stream; a torn last write is C16"],
+}
+PROPS["C16"] = {
+    "level": "proof", "title": "A torn final write costs at most the unacknowledged tail",
+    "lean_modules": ["Rain.Props.C16"], "components": ["c16"], "sig_prefixes": ["c16:", "c09:"],
+    "technique": "Lean 4 theorems over the log model for EVERY cut length (reader returns exactly the complete records; a log with a torn record is reported not-clean and is not re-used; any log that reads cleanly can be appended to and the appended records are read back) + torn-write enumeration on the real code (every write of the recorded stream cut at several lengths, both log-reuse settings, recovery, further writes, clean reopen)",
+    "level_text": "Machine-checked proofs (C12_truncation_total, C12_torn_log_is_not_reused, C12_clean_append, re-stated in Props/C16) for every block size, checksum, record list and cut length; at image level a torn write is an absent operation of the durability model. Tied to the code on every run: the byte-level model is compared with LogWriter/LogReader (incl. was_read_cleanly_to_end) on thousands of generated files and cut points (C12 component), and the torn-write enumerator cuts every write to a WAL, manifest, CURRENT temp file and (sampled) table of recorded histories at 1 byte, half and all-but-one (thorough: more lengths), reopens with reuse_log_files true and false, checks acknowledged/in-flight contents, writes more, closes, reopens and checks again.",
+    "design_ref": "5 (C16)", "trusted_base": DUR_TB,
+    "assumptions": ["a torn write is a byte prefix of the write (no garbage beyond the prefix)"],
+}
+PROPS["C08"] = {
+    "level": "proof", "title": "I/O failures are reported, never swallowed; nothing acknowledged is lost",
+    "lean_modules": ["Rain.Props.Durable", "Rain.Props.Proto"], "components": ["c08"], "sig_prefixes": ["c08:", "c09:"],
+    "technique": "Lean 4: a failed filesystem call is an absent operation of the durability model, so the image stays safe for the acknowledged batches (step_safe / C16_incomplete_operation_changes_nothing), write-ahead order at protocol level (C05_wal_before_memtable) + exhaustive single-fault enumeration on the real code (every call position, transient and sticky) with a possible-values oracle, and the stream of completed operations under faults checked by the durability monitor",
+    "level_text": "The proof part is partial by nature: it shows that the persistent image cannot be harmed by operations that fail (they are absent from the monitored stream) and that the ordering discipline keeps every acknowledged batch recoverable; whether each API call REPORTS the failure is decided on the real code by fault enumeration: for generated histories every position of the filesystem call stream (create, write/append, rename, remove, open-for-read, size, list, lock) is armed in turn, once and persistently; every API result is recorded (Ok writes must be visible to every later successful read, Err writes may or may not be applied, failed batches all-or-nothing), then the fault is removed, the database reopened and compared; the completed-operation streams of fault runs are fed to the durability monitor. Two findings (read errors swallowed by table iterators) are recorded as known findings.",
+    "design_ref": "5 (C08)", "trusted_base": DUR_TB,
+    "assumptions": ["single injected failure (transient or sticky from a position on)", "the interleaving of foreground and background filesystem calls is made reproducible by waiting for background quiescence after every operation; replay also tries neighbouring call positions"],
+}
 PROPS["C15"] = {
     "level": "proof", "title": "Corrupted files are detected, never served as data",
     "lean_modules": ["Rain.Props.C15"], "components": ["c15"], "sig_prefixes": ["c15:"],
@@ -184,4 +206,4 @@ PROPS["C17"] = {
 }
 
 # properties whose check is registered in MANIFEST.json
-CLAIMED = ["C01", "C03", "C04", "C06", "C07", "C10", "C11", "C12", "C13", "C14", "C15", "C17"]
+CLAIMED = ["C01", "C02", "C03", "C04", "C06", "C07", "C08", "C10", "C11", "C12", "C13", "C14", "C15", "C16", "C17"]
